@@ -31,6 +31,7 @@ structure XOK (c : Chart) : Prop where
   noInit : ∀ s, (Large.st c s).typ ≠ .initial
   legalCompl : ∀ v, ∀ k1 ∈ (Large.st c v).completion, ∀ k2 ∈ (Large.st c v).completion, Compatible c k1 k2
   legalTargets : ∀ i, ∀ g1 ∈ (Large.tr c i).targets, ∀ g2 ∈ (Large.tr c i).targets, Compatible c g1 g2
+  transSrc : ∀ s, ∀ ti ∈ (Large.st c s).trans, (Large.tr c ti).source = s
 
 /-- the states that stay active through the micro-step -/
 def stayOf (e : EState) (exitS : List Nat) : List Nat := e.config.filter (fun x => !exitS.contains x)
@@ -219,5 +220,22 @@ theorem descVisit_xor (c : Chart) (hc : Coh c) (hk : EOK c) (hd : DOK c) (hx : X
             · rw [st_oor c b hblt] at hpb; cases hpb
         · -- both new: on the chains to two members of the completion
           exact hx.legalCompl s k1 hk1 k2 hk2 a hak1 b hbk2 q hpa hpb hq
+
+theorem descLoop_xor (c : Chart) (hc : Coh c) (hk : EOK c) (hd : DOK c) (hx : XOK c) (e : EState) (exitS : List Nat)
+    (hstayC : Closed c (stayOf e exitS)) (hstayR : ∀ x ∈ stayOf e exitS, x < c.states.size) :
+    ∀ (fuel i : Nat) (entry ts : List Nat), Inv c entry → XorU c (entry ++ stayOf e exitS) →
+      XorU c ((descLoop c e exitS fuel i entry ts).1 ++ stayOf e exitS) := by
+  intro fuel
+  induction fuel with
+  | zero => intro i entry ts _ h; exact h
+  | succ f ih =>
+    intro i entry ts hinv h
+    unfold descLoop
+    split
+    · exact h
+    · rename_i s hs
+      have hsm := List.mem_of_getElem? hs
+      exact ih (i + 1) _ _ (descVisit_inv c hc hk e exitS s entry ts hsm hinv)
+        (descVisit_xor c hc hk hd hx e exitS s entry ts hsm hinv hstayC hstayR h)
 
 end UscxmlVerif.Proofs.Xor
